@@ -48,7 +48,10 @@ pub fn wrap(key: &[u8], data: &[u8]) -> Result<Vec<u8>, Error> {
 /// AES Key Unwrap
 /// As defined in RFC 3394.
 pub fn unwrap(key: &[u8], data: &[u8]) -> Result<Zeroizing<Vec<u8>>, Error> {
-    let len = data.len() - IV_LEN;
+    // wrapped data is the 8 octet IV followed by at least two 8 octet blocks
+    let Some(len) = data.len().checked_sub(IV_LEN) else {
+        return Err(aes_kw::Error::InvalidDataSize).context(UnwrapSnafu);
+    };
     let mut out = Zeroizing::new(vec![0u8; len]);
 
     let aes_size = key.len() * 8;
